@@ -90,7 +90,7 @@ theorem pull_append (parse : Bool → List Byte → ParseRes) (n m : Nat) (buf p
 
 /-! ### `readLine` -/
 
-theorem readLineGo_append (raw esc : Bool) (buf p S : List Byte) (acc cs : List (Char × Bool))
+theorem readLineGo_append (raw esc : Bool) (buf p S : List Byte) (acc cs : List AChar)
     (r : List Byte) (h : readLineGo d raw esc buf p acc = (cs, .found, r)) :
     readLineGo d raw esc buf (p ++ S) acc = (cs, .found, r ++ S) := by
   induction p generalizing esc buf acc with
@@ -119,11 +119,11 @@ theorem readLineGo_append (raw esc : Bool) (buf p S : List Byte) (acc cs : List 
           · simp only [hbs, and_self, if_true] at h ⊢; exact ih _ _ _ h
           · simp only [hbs, if_false] at h ⊢; exact ih _ _ _ h
 
-theorem readLine_append (raw : Bool) (p S : List Byte) (acc cs : List (Char × Bool)) (r : List Byte)
+theorem readLine_append (raw : Bool) (p S : List Byte) (acc cs : List AChar) (r : List Byte)
     (h : readLine d raw p acc = (cs, .found, r)) :
     readLine d raw (p ++ S) acc = (cs, .found, r ++ S) := readLineGo_append raw false [] p S acc cs r h
 
-theorem readLineGo_suffix (raw esc : Bool) (buf p : List Byte) (acc : List (Char × Bool)) :
+theorem readLineGo_suffix (raw esc : Bool) (buf p : List Byte) (acc : List AChar) :
     ∃ pre, pre ++ (readLineGo d raw esc buf p acc).2.2 = p := by
   induction p generalizing esc buf acc with
   | nil => exact ⟨[], by simp [readLineGo]⟩
@@ -140,7 +140,8 @@ theorem readLineGo_suffix (raw esc : Bool) (buf p : List Byte) (acc : List (Char
         by_cases hc : code = 10
         · simp only [hc, if_true]; obtain ⟨pre, hp⟩ := ih false [] acc; exact ⟨b :: pre, by simp [hp]⟩
         · simp only [hc, if_false]
-          obtain ⟨pre, hp⟩ := ih false [] (acc ++ [(Char.ofNat code, true)])
+          obtain ⟨pre, hp⟩ := ih false []
+            (acc ++ [Expansion.readQuoting '\\', Expansion.readQuoted (Char.ofNat code)])
           exact ⟨b :: pre, by simp [hp]⟩
       | false =>
         simp only [Bool.false_eq_true, if_false]
@@ -151,10 +152,10 @@ theorem readLineGo_suffix (raw esc : Bool) (buf p : List Byte) (acc : List (Char
           · simp only [hbs, and_self, if_true]
             obtain ⟨pre, hp⟩ := ih true [] acc; exact ⟨b :: pre, by simp [hp]⟩
           · simp only [hbs, if_false]
-            obtain ⟨pre, hp⟩ := ih false [] (acc ++ [(Char.ofNat code, false)])
+            obtain ⟨pre, hp⟩ := ih false [] (acc ++ [Expansion.plainChar (Char.ofNat code)])
             exact ⟨b :: pre, by simp [hp]⟩
 
-theorem readLine_suffix (raw : Bool) (p : List Byte) (acc : List (Char × Bool)) :
+theorem readLine_suffix (raw : Bool) (p : List Byte) (acc : List AChar) :
     ∃ pre, pre ++ (readLine d raw p acc).2.2 = p := readLineGo_suffix raw false [] p acc
 
 end YashModel.Input
